@@ -8,6 +8,7 @@ import c08
 from pathsum import ERR, OK, SOME, St, show_term
 from skeleton import P, PE, pid_name
 
+RERUN_ON_CONFIGS = ("dfm", "std")
 LEVEL = "other"
 RULE_TEXT = ("C12-I: every construction of ParseError::Incomplete lies on a path whose condition is an end-of-input fact "
              "(first() is None; both parts of a take_while result empty; len() < needed) and every such length/emptiness "
